@@ -13,7 +13,7 @@ pub static DEF: CheckDef = CheckDef {
     id: "C03",
     run,
     replay,
-    rule: "multi-bank ROMs (MBC1 with 8 and 64 banks, MBC3 with 32 banks) whose banks hold different generated blocks (different instructions, different lengths, different terminators) at the same eight slot addresses 0x4000 + k*0x40, bank-0 blocks, bank-0 trampolines (LD A,v; LD (bank register),A; JP slot) and a bank-0 block that runs through 0x3FFF into the switchable bank. proptest histories of 1-60 operations over {run slot k, run bank-0 block j, guest switch (trampoline: value, register, slot), host switch (write to 0x0000-0x7FFF between blocks), switch back to the first bank, continue (follow the last block's own terminator), run the fall-through block}. Three executors are stepped with Core::run_code_block(): the jit build with its persistent cache, the jit build with a new empty cache before every step, the interpreter build. After every step all CPU/device scalars and the complete memory must be pairwise identical. Non-trivial = history that executes a slot address under a different mapped bank than the one it was first translated under (class revisit-after-switch), and ones that return to the first bank afterwards (switch-back); measured on the interpreter build; distinct by hash of (cartridge, history).",
+    rule: "multi-bank ROMs (MBC1 with 8 and 64 banks, MBC3 with 32 banks) whose banks hold different generated blocks (different instructions, different lengths, different terminators) at the same eight slot addresses 0x4000 + k*0x40, bank-0 blocks, bank-0 trampolines (LD A,v; LD (bank register),A; JP slot) and a bank-0 block that runs through 0x3FFF into the switchable bank (its last instruction straddling the boundary in three of four ROMs). proptest histories of 1-60 operations over {run slot k, run bank-0 block j, guest switch (trampoline: value, register, slot), host switch (write to 0x0000-0x7FFF between blocks), switch back to the first bank, continue (follow the last block's own terminator), run the fall-through block}. Three executors are stepped with Core::run_code_block(): the jit build with its persistent cache, the jit build with a new empty cache before every step, the interpreter build. After every step all CPU/device scalars and the complete memory must be pairwise identical. Non-trivial = history that executes a slot address under a different mapped bank than the one it was first translated under (class revisit-after-switch), and ones that return to the first bank afterwards (switch-back); measured on the interpreter build; distinct by hash of (cartridge, history).",
     assumptions: &[
         "the interpreter build is the reference; blocks in the switchable region never write below 0x8000 (known finding C01 jit-self-bank-switch is excluded by construction)",
     ],
@@ -59,6 +59,11 @@ fn tramp_addr(vi: u8, reg: u8, slot: u8) -> u16 {
 
 fn gen_block(x: &mut u64, table: &[u8], bank: usize, slot: usize) -> Vec<u8> {
     let mut code = Vec::new();
+    if slot == 0 && bank > 0 {
+        // two one-byte instructions first: the fall-through block may consume them as operand bytes
+        code.push([0x00u8, 0x3c, 0x04, 0x0c, 0x14, 0x1c, 0x24, 0x2c][bank % 8]);
+        code.push([0x2fu8, 0x37, 0x3f, 0x07, 0x0f, 0x17, 0x1f, 0x00][bank % 8]);
+    }
     let n = 1 + (splitmix(*x ^ 77) % 7) as usize;
     for _ in 0..n {
         *x = splitmix(*x);
@@ -161,9 +166,19 @@ fn build_rom(cart: u8, seed: u16) -> RomImage {
             }
         }
     }
-    // fall-through block: 16 one-byte instructions up to 0x3FFF, no terminator
+    // fall-through block: one-byte instructions up to 0x3FFF, no terminator; in three
+    // of four ROMs the last instruction straddles 0x3FFF/0x4000 (operand bytes from the mapped bank)
     for a in FALL_START..0x4000 {
         rom.bytes[a] = [0x3c, 0x04, 0x0c, 0x14][a & 3];
+    }
+    match seed & 3 {
+        1 => rom.bytes[0x3fff] = 0x06,
+        2 => {
+            rom.bytes[0x3ffe] = 0x01;
+            rom.bytes[0x3fff] = 0x5a;
+        }
+        3 => rom.bytes[0x3fff] = 0x11,
+        _ => {}
     }
     rom.fix_checksum();
     rom
